@@ -13,12 +13,12 @@ Definition to_parsed (r : presult) : parsed :=
 Definition include_fuel : nat := 40.
 
 Definition generate (join : list str -> option str) (cfg : config)
-           (ordp : list pname) (ords : smap -> smap) (ordi : list (str * nat) -> list (str * nat))
+           (ordp : list pname) (ords ords2 : smap -> smap) (ordi : list (str * nat) -> list (str * nat))
            (limit_parse limit_asm : N) (fs : fsys) (contents : str) : outcome str :=
-  do r <- parse ordp ords ordi limit_parse fs include_fuel [] contents;
+  do r <- parse ordp ords ords2 ordi limit_parse fs include_fuel [] contents;
   assemble join cfg limit_asm [] (to_parsed r).
 
 (* only the parser: what the assembler is handed *)
-Definition parse_only (ordp : list pname) (ords : smap -> smap) (ordi : list (str * nat) -> list (str * nat))
+Definition parse_only (ordp : list pname) (ords ords2 : smap -> smap) (ordi : list (str * nat) -> list (str * nat))
            (limit_parse : N) (fs : fsys) (contents : str) : outcome presult :=
-  parse ordp ords ordi limit_parse fs include_fuel [] contents.
+  parse ordp ords ords2 ordi limit_parse fs include_fuel [] contents.
